@@ -487,11 +487,14 @@ impl<'a> Model<'a> {
             Cell::CellFormula { .. } => {
                 // This is a regular formula cell, it is re-entered at the target.
             }
-            Cell::SpillCell { .. } => {
+            Cell::SpillCell { s, .. } => {
                 // This the spill of an array formula. Because dynamic arrays spills have been deleted
-                // We delete the spill
+                // We delete the spill, but its style moves with it: the block is re-created
+                // (with the styles found at the target) when its anchor is moved
+                let s = *s;
                 let worksheet = self.workbook.worksheet_mut(sheet)?;
                 worksheet.remove_cell(source_row, source_column)?;
+                worksheet.update_cell(target_row, target_column, Cell::EmptyCell { s })?;
                 return Ok(());
             }
             Cell::ArrayFormula {
@@ -1139,12 +1142,10 @@ impl<'a> Model<'a> {
                 Cell::CellFormula { .. } => {
                     // This is a regular formula cell, it is re-entered at the target.
                 }
-                Cell::SpillCell { .. } => {
+                Cell::SpillCell { s, .. } => {
                     // This the spill of an array formula. Because dynamic arrays spills have been deleted
-                    // We delete the spill
-                    let worksheet = self.workbook.worksheet_mut(sheet)?;
-                    worksheet.remove_cell(r.row, column)?;
-                    continue;
+                    // We delete the spill, but its style moves with it
+                    raw = Some(Cell::EmptyCell { s: *s });
                 }
                 Cell::ArrayFormula {
                     r,
@@ -1293,12 +1294,10 @@ impl<'a> Model<'a> {
                 Cell::CellFormula { .. } => {
                     // This is a regular formula cell, it is re-entered at the target.
                 }
-                Cell::SpillCell { .. } => {
+                Cell::SpillCell { s, .. } => {
                     // This the spill of an array formula. Because dynamic arrays spills have been deleted
-                    // We delete the spill
-                    let worksheet = self.workbook.worksheet_mut(sheet)?;
-                    worksheet.remove_cell(row, *c)?;
-                    continue;
+                    // We delete the spill, but its style moves with it
+                    raw = Some(Cell::EmptyCell { s: *s });
                 }
                 Cell::ArrayFormula {
                     r,
